@@ -140,8 +140,23 @@ pub fn run(a: &Args) {
             let got = reader_summary(bytes, sc, opts, 0x0);
             o.direct_checks += 1;
             if got != one {
-                o.violation(viol("reader-result-depends-on-delivery", vec![("file", jstr(name)), ("bytes", jstr(&hex(bytes))), ("opts", opts.bits().to_string()),
-                    ("schedule", jstr(&format!("{:?}", sc))), ("whole", jstr(&one)), ("pieces", jstr(&got))]));
+                // known finding: a frame that has BOTH an undefined filter byte in its rows and a corrupt deflate stream further on: which of
+                // the two errors is reported depends on how much the inflater was fed before the rows were looked at
+                let a: Vec<&str> = one.split(" | ").collect();
+                let b: Vec<&str> = got.split(" | ").collect();
+                let racing = |x: &str, y: &str| {
+                    let kinds = ["err:Format:CorruptFlateStream", "err:Format:UnknownFilterMethod"];
+                    let (fx, ex) = x.split_once(' ').unwrap_or((x, ""));
+                    let (fy, ey) = y.split_once(' ').unwrap_or((y, ""));
+                    fx == fy && fx.starts_with('F') && fx != "FIN" && kinds.contains(&ex) && kinds.contains(&ey) && ex != ey
+                };
+                let only_race = a.len() == b.len() && a.iter().zip(b.iter()).all(|(x, y)| x == y || racing(x, y) || (x.starts_with("FIN ") && y.starts_with("FIN ")))
+                    && a.iter().zip(b.iter()).any(|(x, y)| racing(x, y));
+                let class = if only_race { "filter-error-and-corrupt-stream-in-one-frame-reported-in-delivery-dependent-order" } else { "reader-result-depends-on-delivery" };
+                let mut v = viol("reader-result-depends-on-delivery", vec![("file", jstr(name)), ("bytes", jstr(&hex(bytes))), ("opts", opts.bits().to_string()),
+                    ("schedule", jstr(&format!("{:?}", sc))), ("whole", jstr(&one)), ("pieces", jstr(&got))]);
+                v = v.replacen("\"class\": \"reader-result-depends-on-delivery\"", &format!("\"class\": \"{}\"", class), 1);
+                o.violation(v);
                 break;
             }
         }
